@@ -23,11 +23,15 @@ import (
 type bc46Conn struct {
 	r      *bytes.Reader
 	closed bool
+	seg    int // > 0: the peer's bytes arrive in segments of at most seg bytes (one per Read)
 }
 
 func (c *bc46Conn) Read(b []byte) (int, error) {
 	if c.closed {
 		return 0, io.ErrClosedPipe
+	}
+	if c.seg > 0 && len(b) > c.seg {
+		b = b[:c.seg]
 	}
 	return c.r.Read(b)
 }
@@ -49,13 +53,13 @@ type bc46Case struct {
 	passThru bool   // no header: everything is data
 }
 
-func bc46Run(c bc46Case) (verdict string) {
+func bc46Run(c bc46Case, seg int) (verdict string) {
 	defer func() {
 		if r := recover(); r != nil {
 			verdict = fmt.Sprintf("panic: %v", r)
 		}
 	}()
-	raw := &bc46Conn{r: bytes.NewReader(append(append([]byte{}, c.wire...), c.payload...))}
+	raw := &bc46Conn{r: bytes.NewReader(append(append([]byte{}, c.wire...), c.payload...)), seg: seg}
 	pc := NewConn(raw, time.Second, 0)
 	data, err := io.ReadAll(pc)
 	if c.wantErr {
@@ -185,8 +189,19 @@ func TestBoundedC46Proxy(t *testing.T) {
 	cases := bc46Cases()
 	fails := map[string]string{}
 	samples := 0
+	segs := []int{0, 1, 13} // whole stream at once, byte by byte, 13-byte segments (splits inside every part)
 	for _, c := range cases {
-		if v := bc46Run(c); v != "" {
+		v, vseg := "", 0
+		for _, seg := range segs {
+			if v = bc46Run(c, seg); v != "" {
+				vseg = seg
+				break
+			}
+		}
+		if v != "" {
+			if vseg > 0 {
+				v = fmt.Sprintf("delivered in segments of %d bytes: %s", vseg, v)
+			}
 			// one id per header shape (the payload variants of a shape fail together)
 			shape := c.id
 			if i := strings.LastIndex(shape, "/payload"); i >= 0 {
@@ -208,5 +223,5 @@ func TestBoundedC46Proxy(t *testing.T) {
 	for _, id := range ids {
 		fmt.Printf("BOUNDED-FAIL id=%s :: %s\n", strings.ReplaceAll(id, " ", "_"), fails[id])
 	}
-	fmt.Printf("BOUNDED-CASES n=%d distinct=%d bound=v1: TCP4/TCP6 over 2 address pairs x 3x3 ports, UNKNOWN short/long, 8 malformed lines; v2: PROXY/LOCAL x UNSPEC/TCP4/TCP6/UNIX x 9 TLV tails (0..1800 bytes), 4 malformed + 5 truncations; 5 header-less streams; each with 4 payloads\n", len(cases), len(cases))
+	fmt.Printf("BOUNDED-CASES n=%d distinct=%d bound=each wire image delivered whole, byte by byte and in 13-byte segments; v1: TCP4/TCP6 over 2 address pairs x 3x3 ports, UNKNOWN short/long, 8 malformed lines; v2: PROXY/LOCAL x UNSPEC/TCP4/TCP6/UNIX x 9 TLV tails (0..1800 bytes), 4 malformed + 5 truncations; 5 header-less streams; each with 4 payloads\n", 3*len(cases), 3*len(cases))
 }
